@@ -7,7 +7,7 @@ from .. import attach
 from ..util import cube_integral, maxabs, mono, monomials_tensor, monomials_total, simplex_integral
 
 # table precision of the hard-coded rules (relative to the domain measure)
-TABLE_TOL = {"Triangle": 1e-12, "Tetrahedron": 1e-12, "BazantOh": 5e-9}
+TABLE_TOL = {"Triangle": 1e-12, "Tetrahedron": 1e-12, "BazantOh": 5e-11}
 
 
 def sphere_average(e):
